@@ -180,7 +180,7 @@ type cdesc struct {
 	Value   string `json:"value"`
 }
 
-var variants = []string{"n0", "n1", "n2", "first-field-absent", "unknown-field", "later-elements-lack-first-field", "later-elements-lack-last-field"}
+var variants = []string{"n0", "n1", "n2", "first-field-absent", "unknown-field", "later-elements-lack-first-field", "later-elements-lack-last-field", "unknown-fields-with-ids-the-target-adds"}
 
 func buildValue(s *tbin.Shape, variant string) *tbin.Val {
 	g := &tbin.Gen{}
@@ -198,6 +198,12 @@ func buildValue(s *tbin.Shape, variant string) *tbin.Val {
 	case "unknown-field":
 		v := g.Build(s, 1)
 		addUnknown(v)
+		return v
+	case "unknown-fields-with-ids-the-target-adds":
+		// fields the SOURCE descriptor does not know, numbered like the fields the edited targets add (40, 77, 300):
+		// they are no source elements, so they neither reach the output nor count as the target's field
+		v := g.Build(s, 1)
+		addUnknownIDs(v, []int16{40, 77, 300})
 		return v
 	case "later-elements-lack-first-field", "later-elements-lack-last-field":
 		// heterogeneous container elements: element 0 of every list / set / map is complete, the later ones lack
@@ -240,6 +246,25 @@ func dropFirst(v *tbin.Val) {
 	}
 	for _, f := range v.Fs {
 		dropFirst(f.V)
+	}
+}
+
+func addUnknownIDs(v *tbin.Val, ids []int16) {
+	for _, e := range v.L {
+		addUnknownIDs(e, ids)
+	}
+	for _, e := range v.K {
+		addUnknownIDs(e, ids)
+	}
+	for _, f := range v.Fs {
+		addUnknownIDs(f.V, ids)
+	}
+	if v.T == tbin.STRUCT {
+		for _, id := range ids {
+			if v.FieldByID(id) == nil {
+				v.Fs = append(v.Fs, tbin.F(id, tbin.I32v(int32(id)+1000)))
+			}
+		}
 	}
 }
 
